@@ -9,6 +9,7 @@ import (
 	"hash/fnv"
 	"reflect"
 	"sort"
+	"strings"
 )
 
 type walker struct {
@@ -49,8 +50,8 @@ func (w *walker) walk(v reflect.Value, depth int) {
 			return
 		}
 		w.seen[p] = len(w.seen)
-		if t.Elem().PkgPath() == "math/rand" {
-			w.str("rand")
+		if t.Elem().PkgPath() == "math/rand" || strings.HasPrefix(t.Elem().PkgPath(), "verif/") {
+			w.str("opaque")
 			return
 		}
 		w.walk(v.Elem(), depth+1)
@@ -62,7 +63,9 @@ func (w *walker) walk(v reflect.Value, depth int) {
 		w.str(v.Elem().Type().String())
 		w.walk(v.Elem(), depth+1)
 	case reflect.Struct:
-		if t.PkgPath() == "math/rand" || t.PkgPath() == "sync" {
+		if t.PkgPath() == "math/rand" || t.PkgPath() == "sync" || t.PkgPath() == "sync/atomic" || strings.HasPrefix(t.PkgPath(), "verif/") {
+			// random sources, synchronisation primitives and the verification engine's own objects
+			// (scheduler, in-memory files) are not state of the code under test
 			w.str("opaque:" + t.String())
 			return
 		}
